@@ -121,8 +121,7 @@ void build_inputs(bool thorough) {
     add(g_dur, j);
   add_mut(g_dur, "15ms", "09 +-smx.\x80", thorough, "0 s");
   add_mut(g_dur, "20s", "09 +-smhx\x80", thorough, "0 s");
-  add_mut(g_dur, "9223372036854775807ns", "09", false, "");
-  add_mut(g_dur, "2562047h", "09", false, "");
+  for (const char *j : {"9223372036854775806ns", "9223372036854775799ns", "19223372036854775807ns", "92233720368547758070ns", "2562047h ", "25620470h", "02562047h"}) add(g_dur, j);
 
   // ---- floats ----------------------------------------------------------------------------------
   g_float.push_back({false, ""});
@@ -253,7 +252,6 @@ void run_uint(vf::Ctx &c) {
 void run_duration(vf::Ctx &c) {
   using sysdur = std::chrono::system_clock::duration;
   const Input &in = c.pick_from("input", g_dur);
-  int e = c.pick("errno", 2);
   const sysdur kSentinel = sysdur(-123456789);
   // reference parse:  [space]* [+-]? digits+ unit
   bool lead; char sign; std::string rest;
@@ -276,6 +274,9 @@ void run_duration(vf::Ctx &c) {
   // the reference computes in nanoseconds and converts to the clock's tick (identity on this platform)
   bool value_fits = count_fits && count * factor <= kMax;
   sysdur want = value_fits ? std::chrono::duration_cast<sysdur>(std::chrono::nanoseconds((int64_t)(count * factor))) : sysdur(0);
+  // errno on entry is crossed with every input except the overflowing ones (each of those costs a sanitizer
+  // trap and a worker restart on the unrepaired tree, and the duration reader does not look at errno)
+  int e = (syntax && !value_fits) ? 0 : c.pick("errno", 2);
   // the stage names the class of the input so that a sanitizer trap is attributed to it
   if (syntax && !count_fits) c.stage("duration:count-overflows-int64");
   else if (syntax && !value_fits) c.stage("duration:unit-conversion-overflows-int64");
@@ -432,7 +433,7 @@ void run_string(vf::Ctx &c) {
 
 void setup(vf::Options &o) {
   o.split_depth = 2;
-  o.deadline_s = o.thorough ? 900 : 100;
+  o.deadline_s = o.thorough ? 900 : 150;
   build_inputs(o.thorough);
   // the readers warn through the global log handler: keep the warning path, drop the output
   sdkcommon::internal_log::GlobalLogHandler::SetLogHandler(
